@@ -158,7 +158,9 @@ def a123(run, mod, fn, L):
             run.ob("A3", P in ("Path(PathNode(PATH_NODE_ROOT_NAME))", "ROOT_PATH"), "the default path is the decoder's root path",
                    f"default path is `{P}`", module=mod, node=fn, func=fn.name, construct="obj_to_events default path")
         fx = p.effect_texts()
-        not_dc = any(a.startswith("try@") and "TypeError" in a for a, v, _ in p.cond)
+        # "not a dataclass": `fields(obj)` raised TypeError, or `dataclasses.is_dataclass(obj)` answered no (the same test)
+        not_dc = any(a.startswith("try@") and "TypeError" in a for a, v, _ in p.cond) or p.truth("is_dataclass(obj)") is False \
+            or p.truth("dataclasses.is_dataclass(obj)") is False
         if not_dc:
             is_list_ = p.truth("isinstance(obj, list)")
             if is_list_ is None:
@@ -173,8 +175,18 @@ def a123(run, mod, fn, L):
                 if ok:
                     i, elem = (norm(x) for x in lps[0][2].target.elts)
                     want = [("yieldfrom", f"obj_to_events(obj={elem}, path={P}[:-1] / PathNode(name={P}[-1].name, index={i}))")]
+                    wants = [want]
+                    # `node.with_index(i)` is that node with the index set, by the definition of PathNode.with_index
+                    pm2 = L.m.project.module("tpmstream.common.path") if hasattr(L.m, "project") else None
+                    wi = pm2.functions().get("PathNode.with_index") if pm2 is not None else None
+                    if wi is not None and len(wi.args.args) == 2:
+                        rs = [r for r in ast.walk(wi) if isinstance(r, ast.Return)]
+                        a1 = wi.args.args[1].arg
+                        if len(rs) == 1 and norm(rs[0].value) in (f"PathNode(name=self.name, index={a1})", f"PathNode(self.name, {a1})",
+                                                                   f"PathNode(self.name, index={a1})"):
+                            wants.append([("yieldfrom", f"obj_to_events(obj={elem}, path={P}[:-1] / {P}[-1].with_index({i}))")])
                     body = p.loops[id(lps[0][2])]
-                    ok = all(b.effect_texts() == want and b.end == "fall" and not b.cond for b in body) and len(body) == 1
+                    ok = all(b.effect_texts() in wants and b.end == "fall" and not b.cond for b in body) and len(body) == 1
                 run.ob("A3", ok, "list elements get path[:-1] / PathNode(name, index=i), in order", "element paths of obj_to_events changed: "
                        f"{[b.effect_texts() for b in p.loops.get(id(lps[0][2]), [])] if lps else fx}", module=mod,
                        node=lps[0][2] if lps else fn, func=fn.name, construct="obj_to_events element path")
